@@ -132,7 +132,7 @@ func (l *lane) tryEnsure() error {
 
 func (l *lane) ensure() {
 	if err := l.tryEnsure(); err != nil {
-		vcommon.Harness("cannot start a worker: %v", err)
+		harnessFail("cannot start a worker: %v", err)
 	}
 }
 
@@ -552,7 +552,7 @@ func driverMain() {
 						queue <- c
 						l.retired = true
 						if int(retired.Add(1)) == len(lanes) {
-							vcommon.Harness("no lane can start a worker any more")
+							harnessFail("no lane can start a worker any more")
 						}
 						return
 					}
@@ -593,9 +593,11 @@ func driverMain() {
 		rc = rc[:400]
 	}
 	dialErrs := 0
+	dialByListener := map[string]int{}
 	for k, n := range d.classes {
 		if strings.Contains(k, "dial-error") {
 			dialErrs += n
+			dialByListener[strings.SplitN(k, "|", 2)[0]] += n
 		}
 	}
 	r.Rule = "case = (listener, valid unauthenticated seed exchange, one single deviation: truncation at an offset | one byte set to a value of the byte alphabet | " +
@@ -612,6 +614,9 @@ func driverMain() {
 	r.Set("probe_unanswered_while_alive", d.unresponsive.Load())
 	r.Set("exchanges_not_run", d.skipped.Load())
 	r.Set("dial_errors", dialErrs)
+	if dialErrs > 0 {
+		r.Set("dial_errors_by_listener", dialByListener)
+	}
 	r.Set("answer_classes", rc)
 	r.Set("lanes", nl)
 	for i, e := range phase0 {
@@ -636,7 +641,7 @@ func driverMain() {
 		r.Note("internal deadline reached: %d exchanges not run", skipped)
 	}
 	if dialErrs > total/50 {
-		vcommon.Harness("%d of %d exchanges could not connect to the worker (overload?); the run is not conclusive", dialErrs, total)
+		harnessFail("%d of %d exchanges could not connect to the worker (overload?); the run is not conclusive", dialErrs, total)
 	}
 	d.mu.Lock()
 	culpritLists := map[string][]string{}
@@ -673,3 +678,12 @@ func driverMain() {
 }
 
 var startTime = time.Now()
+
+// harnessFail removes the scratch directory (the workers exit when their stdin closes with this process) and
+// reports a harness error.
+func harnessFail(format string, a ...any) {
+	if scratchDir != "" {
+		_ = os.RemoveAll(scratchDir)
+	}
+	vcommon.Harness(format, a...)
+}
